@@ -9,6 +9,7 @@ import PydapModel.Seq
 import PydapModel.CE
 import PydapModel.TableVal
 import Proofs.Seq
+import Proofs.SeqEnc
 namespace Pydap.C04
 open Pydap Pydap.IterData Pydap.Seq
 
@@ -105,6 +106,43 @@ theorem C04_backends_agree (cmp : Op → A → A → Bool) (enc : A → List Cha
   rw [C04_serve_lazy cmp enc lit id names hnd rows hrows csv q cs rcs hre hcl hcols,
     C04_serve_numpy cmp lit id names hid hne rows hrows q rcs hcl0 hcols]
 
+/-- **Lazy sequences, no side condition on the rebuilt clauses.**  When `literal_eval (encode v) = v`
+    and an encoded value never reads as a column of the sequence, the clauses the child stream rebuilds
+    (`template.id OP other.template.id | encode(other)`) resolve to the clauses of the request, so the
+    lazy backends serve the reference whenever the request's own clauses resolve. -/
+theorem C04_serve_lazy_full (cmp : Op → A → A → Bool) (enc : A → List Char) (lit : List Char → Option A)
+    (henc : ∀ v, lit (enc v) = some v) (id : Name) (hhead : ∀ v, rsplitHead (enc v) ≠ id)
+    (names : List Name) (hnd : names.Nodup) (hid : id ∉ names) (hne : [] ∉ names)
+    (rows : List (List A)) (hrows : ∀ r ∈ rows, r.length = names.length) (csv : Bool)
+    (q : Request) (rcs : List (RCond A))
+    (hcl : q.clauses.mapM (resolve lit id names) = some rcs)
+    (hcols : ∀ k ∈ q.cols.getD names, k ∈ names) :
+    serve cmp enc lit (if csv then .csv else .iterdata) id names rows q
+      = refEval cmp names ⟨rcs, .table (q.cols.getD names), q.range.toList⟩ rows := by
+  obtain ⟨cs, hre, hcl'⟩ := rerender_resolves enc lit id names hid hne henc hhead q.clauses rcs hcl
+  exact C04_serve_lazy cmp enc lit id names hnd rows hrows csv q cs rcs hre hcl' hcols
+
+open Pydap.TableVal in
+/-- **The value domain of the property** (numbers on the dyadic grid, ASCII strings; `encVal` = `pydap.lib.encode`,
+    `litVal` = `ast.literal_eval`, both character-level): `litVal (encVal v) = v` is a lemma
+    (`Proofs/SeqEnc.lean`), so for a sequence whose name starts with a letter the three backends serve the
+    reference and agree, with no hypothesis about the rebuilt clauses. -/
+theorem C04_backends_agree_val (id : Name) (hidc : ∃ c r, id = c :: r ∧ c.isAlpha = true)
+    (names : List Name) (hnd : names.Nodup) (hid : id ∉ names) (hne : [] ∉ names)
+    (rows : List (List Val)) (hrows : ∀ r ∈ rows, r.length = names.length) (csv : Bool)
+    (q : Request) (rcs : List (RCond Val))
+    (hcl : q.clauses.mapM (resolve litVal id names) = some rcs)
+    (hcols : ∀ k ∈ q.cols.getD names, k ∈ names) :
+    serve cmpVal encVal litVal (if csv then .csv else .iterdata) id names rows q
+        = refEval cmpVal names ⟨rcs, .table (q.cols.getD names), q.range.toList⟩ rows
+    ∧ serve cmpVal encVal litVal .numpy id names rows q
+        = refEval cmpVal names ⟨rcs, .table (q.cols.getD names), q.range.toList⟩ rows := by
+  refine ⟨C04_serve_lazy_full cmpVal encVal litVal litVal_encVal id (encVal_head_ne id hidc) names hnd hid hne
+    rows hrows csv q rcs hcl hcols, ?_⟩
+  have := C04_serve_numpy cmpVal litVal id names hid hne rows hrows q rcs hcl hcols
+  -- the numpy path does not use `enc`
+  simpa [serve] using this
+
 /-- **Clause text.**  A clause written `left OP right` is read back as `(left, OP, right)` by the
     leftmost-first operator split of `parse_selection`/`build_filter`, provided the left side has
     none of the characters `< > = !` and the right side does not start with `=` or `~`. -/
@@ -148,6 +186,14 @@ example : exNames.Nodup ∧ ['s'] ∉ exNames ∧ [] ∉ exNames
     ∧ answers (serve cmpVal exEnc litVal .csv ['s'] exNames exRows exReq)
         [.row [.str ['a'], .num 16], .row [.str ['a'], .num 48]] = true := by
   refine ⟨by decide, by decide, by decide, by decide, by decide, by decide, by decide, by decide⟩
+
+/-- the hypotheses of `C04_backends_agree_val` hold for the example request (real `encVal`) -/
+example : (∃ c r, (['s'] : Name) = c :: r ∧ c.isAlpha = true)
+    ∧ (exReq.clauses.mapM (resolve litVal ['s'] exNames)).isSome = true
+    ∧ answers (serve cmpVal encVal litVal .iterdata ['s'] exNames exRows exReq)
+        [.row [.str ['a'], .num 16], .row [.str ['a'], .num 48]] = true
+    ∧ litVal (encVal (.num (-24))) = some (.num (-24)) := by
+  refine ⟨⟨'s', [], rfl, by decide⟩, by decide, by decide, litVal_encVal _⟩
 
 example : CE.parseClause (CE.renderClause ⟨['s', '.', 'i'], .le, ['-', '1']⟩) = some ⟨['s', '.', 'i'], .le, ['-', '1']⟩ := by
   decide
